@@ -208,6 +208,9 @@ def generate(model: Model):
 
     try:
         mod, tree = _fresh("_shuffle")
+        for fn in (x for x in tree.body if isinstance(x, ast.FunctionDef) and x.name == "_calculate_divisions"):
+            for b_ in (x for x in ast.walk(fn) if isinstance(x, ast.BoolOp) and isinstance(x.op, ast.Or) and "nulls.any()" in ast.unparse(x)):
+                yield "mutant", "revert:presorted-ignores-missing-keys", "R10h", mod.rel, _splice(mod.source, b_, "mins.isna().any() or maxes.isna().any()")
         for cdef in (x for x in tree.body if isinstance(x, ast.ClassDef) and x.name == "_SetIndexPost"):
             for fn in (x for x in cdef.body if isinstance(x, ast.FunctionDef) and x.name == "_get_culled_divisions"):
                 for lc in (x for x in ast.walk(fn) if isinstance(x, ast.ListComp) and "for part in partitions" in ast.unparse(x)):
